@@ -121,7 +121,8 @@ def spellings(rng, root, rel, late=False):
         return rng.choice(out[1:] if late else out)
     if late:
         return "proj/" + rel
-    out = [rel, rel, os.path.join(root, "proj", rel), "proj/" + rel, d + "/./" + b, d + "//" + b, other + "/../" + rel]
+    out = [rel, rel, os.path.join(root, "proj", rel), "proj/" + rel, d + "/./" + b, d + "//" + b, other + "/../" + rel,
+           rel.replace("/", "\\"), ("proj/" + rel).replace("/", "\\"), (other + "/../" + rel).replace("/", "\\")]      # as written on Windows
     return rng.choice(out)
 
 
